@@ -166,3 +166,13 @@ Definition modrem_value_domain (args : list val) : bool :=
   | [n; d] => negb (as_num d =? 0) && match norm_kind n d with KBig => true | _ => false end
   | _ => false
   end.
+
+(* the domain of the value-level theorem: operations whose bignum / ratio paths return exact values in
+   a non-canonical representation *)
+Definition value_domain (o : opn) (args : list val) : bool :=
+  match o with
+  | ORound _ => round_value_domain args
+  | OMod | ORem => modrem_value_domain args
+  | OBit _ => all_int args
+  | _ => false
+  end.
